@@ -31,7 +31,6 @@ EmptyPool == [t \in {} |-> 0]
 Range(s) == {s[i] : i \in 1..Len(s)}
 NoRepeat(s) == Cardinality(Range(s)) = Len(s)
 Size(p) == Cardinality(DOMAIN p)
-Pools == UNION {[S -> Heights] : S \in SUBSET Tx}
 
 (* AddTxList: FALSE and no change when the hash is present *)
 PAdd(p, t, h) == IF t \in DOMAIN p THEN p ELSE [x \in DOMAIN p \cup {t} |-> IF x = t THEN h ELSE p[x]]
